@@ -62,6 +62,12 @@ def main() -> int:
     if bad_ax:
         problems.append("axioms outside the allowed standard-library list: " + ", ".join(bad_ax))
 
+    if a.tier == "thorough" and proof.get("ok"):
+        chk = build.coqchk(pid)
+        proof["coqchk"] = chk
+        bad = [x for x in chk["axioms"] if x.startswith("UNSAFE") or x.split(".")[-1] not in {y.split(".")[-1] for y in build.ALLOWED_AXIOMS}]
+        if not chk["ok"] or bad:
+            problems.append("coqchk: " + (", ".join(bad) or chk["tail"][-300:]))
     try:
         mod.run(ctx)
     except Exception:
@@ -105,6 +111,7 @@ def main() -> int:
         "discharged": proof.get("discharged", 0),
         "checker_cmd": proof.get("checker_cmd", ""),
         "theorems": proof.get("theorems", []),
+        "coqchk": proof.get("coqchk"),
         "trusted_base": ["Coq 8.16.1 kernel (coqc, full .vo build)", "axioms: " + (", ".join(proof.get("axioms", [])) or "none (closed under the global context)")]
                         + getattr(mod, "TRUSTED", []),
     }
